@@ -6,3 +6,26 @@
 (assert (forall ((HP (Array Int (Array Int Fp))) (D (Array Int Int)) (do Int) (n Int)) (! (=> (>= n 0) (= (zprod HP D do (+ n 1))
     (fp_mul (zprod HP D do n) (select (select HP (pobj D do n)) (+ (poff D do n) 2)))))
   :pattern ((zprod HP D do (+ n 1))))))
+; cell accessors with uninterpreted heads (usable as E-matching triggers; arithmetic inside select is not): element k of a
+; slice of 1-, 3- or 4-cell elements starting at offset o, field d
+(declare-fun c1 (Int Int) Int)
+(declare-fun c3 (Int Int Int) Int)
+(declare-fun c4 (Int Int Int) Int)
+(assert (forall ((o Int) (k Int)) (! (= (c1 o k) (+ o k)) :pattern ((c1 o k)))))
+(assert (forall ((o Int) (k Int) (d Int)) (! (= (c3 o k d) (+ o (* 3 k) d)) :pattern ((c3 o k d)))))
+(assert (forall ((o Int) (k Int) (d Int)) (! (= (c4 o k d) (+ o (* 4 k) d)) :pattern ((c4 o k d)))))
+; nzprod(row,o,n): product of the non-zero Z coordinates (field 2 of 4-cell points) among the first n points of the slice at
+; offset o of row (Montgomery batch inversion that skips zeros: batchToExtendedPointNormalized / batchProjToAffine)
+(declare-fun nzprod ((Array Int Fp) Int Int) Fp)
+(assert (forall ((a (Array Int Fp)) (o Int)) (! (= (nzprod a o 0) fp_one) :pattern ((nzprod a o 0)))))
+(assert (forall ((a (Array Int Fp)) (o Int) (n Int)) (! (=> (>= n 0) (= (nzprod a o (+ n 1))
+    (ite (= (select a (c4 o n 2)) fp_zero) (nzprod a o n) (fp_mul (nzprod a o n) (select a (c4 o n 2))))))
+  :pattern ((nzprod a o (+ n 1))))))
+; the same for slices of 3-cell projective points (Z is field 2) with 2-cell affine results: batchProjToAffine
+(declare-fun c2 (Int Int Int) Int)
+(assert (forall ((o Int) (k Int) (d Int)) (! (= (c2 o k d) (+ o (* 2 k) d)) :pattern ((c2 o k d)))))
+(declare-fun nzprod3 ((Array Int Fp) Int Int) Fp)
+(assert (forall ((a (Array Int Fp)) (o Int)) (! (= (nzprod3 a o 0) fp_one) :pattern ((nzprod3 a o 0)))))
+(assert (forall ((a (Array Int Fp)) (o Int) (n Int)) (! (=> (>= n 0) (= (nzprod3 a o (+ n 1))
+    (ite (= (select a (c3 o n 2)) fp_zero) (nzprod3 a o n) (fp_mul (nzprod3 a o n) (select a (c3 o n 2))))))
+  :pattern ((nzprod3 a o (+ n 1))))))
